@@ -256,6 +256,29 @@ fn navigation(thorough: bool, seed: u64, rep: &mut Report) {
             (Err((off, k)), false) => rep.violation("TryFromJson rejects a well-kinded value", "tryfrom-map", doc.clone(), format!("at {} ({})", off, k)),
         }
     } } } }
+    // Option / Box wrappers must pass the code-map index through
+    rep.checks.push("C11: TryFromJson for Option<T> / Box<T> nested in Vec: the mismatch is reported at its own index".into());
+    for doc in ["[null, true, \"x\"]", "[[true], null, [false, 0]]", "[null, [null, [1]]]", "[true, null, {\"a\":1}]"] {
+        let (v, cm) = Value::parse_str(doc).unwrap();
+        rep.eval(true, fnv(doc.as_bytes()));
+        let r1 = <Vec<Option<bool>> as TryFromJson>::try_from_json(&v, &cm).map(|_| ()).map_err(|e| e.offset);
+        let r2 = <Vec<Option<Vec<bool>>> as TryFromJson>::try_from_json(&v, &cm).map(|_| ()).map_err(|e| e.offset);
+        let r3 = <Vec<Box<Option<Vec<Option<bool>>>>> as TryFromJson>::try_from_json(&v, &cm).map(|_| ()).map_err(|e| e.offset);
+        // expected: the first fragment (pre-order) whose kind does not fit the target shape
+        fn first_bad(v: &Value, cm: &json_syntax::CodeMap, off: usize, depth: usize, shape: &[u8]) -> Option<usize> {
+            // shape: sequence of b'V' (Vec), b'O' (Option), b'B' (bool) from the outside in
+            match shape.first() {
+                None => None,
+                Some(b'O') => if matches!(v, Value::Null) { None } else { first_bad(v, cm, off, depth, &shape[1..]) },
+                Some(b'V') => match v { Value::Array(a) => { use json_syntax::array::JsonArray; for m in a.iter_mapped(cm, off) { if let Some(x) = first_bad(m.value, cm, m.offset, depth + 1, &shape[1..]) { return Some(x); } } None } _ => Some(off) },
+                Some(_) => if matches!(v, Value::Boolean(_)) { None } else { Some(off) },
+            }
+        }
+        for (name, r, shape) in [("Vec<Option<bool>>", r1, &b"VOB"[..]), ("Vec<Option<Vec<bool>>>", r2, &b"VOVB"[..]), ("Vec<Box<Option<Vec<Option<bool>>>>>", r3, &b"VOVOB"[..])] {
+            let want = first_bad(&v, &cm, 0, 0, shape);
+            match (r, want) { (Ok(()), None) => {}, (Err(o), Some(w)) if o == w => {}, (got, want) => rep.violation("TryFromJson reports the kind mismatch at the offending fragment", "tryfrom-option", format!("{} as {}", doc, name), format!("got {:?} expected {:?}", got, want)) }
+        }
+    }
     rep.sample(docs[0].clone());
 }
 
